@@ -3,7 +3,7 @@ import ParryModel.C07.Model3
 import ParryModel.C07.Driver2
 /-!
 C07 protocol handler, part 3.
-* `dv3_visit` / `dv2_visit`: the REAL `CompositeShapeAgainstAnyDistanceVisitor::{new, visit}` on four lanes (internal node,
+* `dv3_visit` / `dv2_visit` (and `cp3_visit` / `cp2_visit`: `CompositeShapeAgainstShapeClosestPointsVisitor`, same lane formula): the REAL `CompositeShapeAgainstAnyDistanceVisitor::{new, visit}` on four lanes (internal node,
   `data = None`) – weights and masks.  Args: `ls_aabb2` (what `g2.compute_aabb(pos12)` returned when the case was generated),
   `best`, four lane boxes; then the relative pose and the other shape (used by the Rust side only).  Model bit-exact; the
   oracle judges by the definition in exact arithmetic: the weight must be the distance between the two closed boxes
@@ -299,7 +299,7 @@ def hf3Handler (fn : String) : Option Handler :=
 
 def handler3 (fn : String) : Option Handler :=
   match fn with
-  | "dv3_visit" => some {
+  | "dv3_visit" | "cp3_visit" => some {
       model := fun a => run (do let ab ← pbox3; let best ← pf; let x ← p4 pbox3
                                 let r := x.map fun u => dvVisit3 ab best u
                                 pure (" ".intercalate ((r.map fun p => ff p.1) ++ (r.map fun p => fb p.2)))) a
@@ -330,7 +330,7 @@ def handler3 (fn : String) : Option Handler :=
           let A := qb2 ab; let d := q2 v; let t := q td
           rayOracleT (x.map fun u => let U := qb2 u
             [(U.mins.x - A.maxs.x - t, U.maxs.x - A.mins.x + t, 0, d.x), (U.mins.y - A.maxs.y - t, U.maxs.y - A.mins.y + t, 0, d.y)]) (q mt) o }
-  | "dv2_visit" => some {
+  | "dv2_visit" | "cp2_visit" => some {
       model := fun a => run (do let ab ← pbox2; let best ← pf; let x ← p4 pbox2
                                 let r := x.map fun u => dvVisit2 ab best u
                                 pure (" ".intercalate ((r.map fun p => ff p.1) ++ (r.map fun p => fb p.2)))) a
